@@ -173,6 +173,7 @@ func (p *pair) close() {
 type scenario struct {
 	senders [][]spec
 	seed    uint64
+	hot     bool
 }
 
 func drawScenario(rt *rapid.T, small bool) scenario {
@@ -188,11 +189,22 @@ func drawScenario(rt *rapid.T, small bool) scenario {
 	bigBudget := 10 * B // bytes of multi-packet traffic per case (keeps a case well below a second)
 	var stream uint64
 	var all []spec
+	// contention mode: every sender starts with a multi-packet message on ONE hot (direction, topic),
+	// so that packets of different messages compete for the same stream queue at the same time
+	hot := !small && g >= 2 && rapid.IntRange(0, 2).Draw(rt, "hot") == 0
+	hotDir, hotTopic := rapid.IntRange(0, 1).Draw(rt, "hotdir"), rapid.SampledFrom(p2psim.AppTopics).Draw(rt, "hottopic")
+	sc.hot = hot
 	for i := 0; i < g; i++ {
 		var list []spec
 		for j, n := 0, rapid.IntRange(1, 4).Draw(rt, "msgs"); j < n; j++ {
 			s := spec{dir: rapid.IntRange(0, 1).Draw(rt, "dir"), topic: rapid.SampledFrom(p2psim.AppTopics).Draw(rt, "topic")}
-			if !small && rapid.IntRange(0, 3).Draw(rt, "big") == 0 {
+			if hot && j == 0 && bigBudget >= B+1 {
+				s.dir, s.topic = hotDir, hotTopic
+				// two-packet messages of (almost) equal size: equal marshalling time, so the per-message
+				// goroutines of PeerSet.send reach the stream queue together
+				s.size = B + 1 + rapid.IntRange(0, 3).Draw(rt, "hotsize")
+				bigBudget -= s.size
+			} else if !small && rapid.IntRange(0, 3).Draw(rt, "big") == 0 {
 				s.size = rapid.SampledFrom(bigSizes).Draw(rt, "bigsize")
 				if s.size > bigBudget {
 					s.size = B + 1
@@ -396,6 +408,7 @@ func runConcurrent(rt *rapid.T, rec *ev.Rec, small bool) {
 	c.ClassIf(len(dirs) == 2, "both-directions")
 	c.ClassIf(multi > 0, "multi-packet")
 	c.ClassIf(multi > 1, "multi-packet>=2")
+	c.ClassIf(sc.hot, "same-stream-multipacket-contention")
 	if small {
 		// race-detector variant: malformed traffic from a raw peer tears ITS connection down while the
 		// honest connection stays; optionally after the connection has lived through a heartbeat tick
